@@ -7,15 +7,17 @@ from ..common import d42  # noqa: F401
 from d42 import optional, represent, schema, substitute
 from d42.representation import Representor
 
-MODULE = "D42.Props.C06Containers"
+MODULE = "D42.Props.C06All"
 THEOREMS = ["repr_scalar_roundtrip", "reprScalar_eq_calls", "repr_scalar_stable", "pattern_excludes_len",
             "represent_listE_layout", "reprElems_indent",
-            "rebuild_roundtrip", "rebuild_same_repr", "rebuild_roundtrip_counterexample", "hC06C_rebuild_roundtrip_iff", "declarable_example"]
-FILES = ["D42/Model/Data.lean", "D42/Model/Repr.lean", "D42/Model/Decl.lean", "D42/Props/C11.lean", "D42/Props/C06.lean", "D42/Props/C06Containers.lean"]
+            "rebuild_roundtrip", "rebuild_same_repr", "rebuild_roundtrip_counterexample", "hC06C_rebuild_roundtrip_iff", "declarable_example",
+            "reprScalar_eq_extracted", "lenToks_eq"]
+FILES = ["D42/Model/Data.lean", "D42/Model/Repr.lean", "D42/Model/Decl.lean", "D42/Props/C11.lean", "D42/Props/C06.lean", "D42/Props/C06Containers.lean",
+         "D42/Model/CheckProg.lean", "D42/Model/ReprProg.lean", "D42/Gen/ReprProg.lean", "D42/Props/ReprProg.lean", "D42/Props/C06All.lean"]
 
 EVIDENCE = dict(
     level="proof",
-    checker_cmd="lake build D42.Props.C06Containers d42model && lake env lean <#print axioms audit>",
+    checker_cmd="lake build D42.Props.C06All d42model && lake env lean <#print axioms audit>",
     trusted=["Lean kernel; standard axioms", "Python evaluates the printed text to the call tree it denotes (CPython's parser)",
              "literal rendering (repr of str/float/bytes/UUID/datetime) is CPython's; the model prints holes the harness fills",
              "representation model tied to the code by exact text comparison at several indents on this run's schemas"],
@@ -97,6 +99,11 @@ def operator_built(ctx):
 
 
 def run(ctx):
+    from .. import extract_representor
+    ok, msg = extract_representor.run()
+    if not ok:
+        ctx.breakage("translation", "representor extraction failed (the scalar visit_* methods of d42/representation/"
+                     "_representor.py no longer consist of the recognised idioms): " + msg)
     runner.prove(ctx, MODULE, THEOREMS, FILES)
     pairs = valcases.scalar_corpus() + valcases.schema_batch(ctx, ctx.n(150, 1200), customs=False, aliases=False,
                                                               max_depth=ctx.n(4, 5))
